@@ -107,6 +107,13 @@ def gen_cases(tier, seed):
                     cases.append({"id": cid, "sig": [icls, nfmt, binding, sr, sa, enc, alg, skew > 0, extra], "icls": icls, "sr": sr, "sa": sa, "enc": enc, "binding": binding,
                                   "alg": alg, "nfmt": nfmt, "classref": rng.choice(CLASSREFS), "snooa": rng.choice([None, 3600, 86400 * 3]),
                                   "lifetime": rng.choice([5, 15, 600]), "skew": skew, "authn_extra": extra})
+    # the attributes in an encrypted advice assertion (pefim), with and without the assertion around it encrypted as well
+    for icls in IDENT_CLASSES[:4] if tier == "quick" else IDENT_CLASSES:
+        for (sr, sa, enc) in combos:
+            nfmt = rng.choice(["persistent", "transient", "given"])
+            cases.append({"id": "%s-r%d-a%d-e%d-post-default-%s-pefim" % (icls, sr, sa, enc, nfmt), "sig": [icls, nfmt, "post", sr, sa, enc, "default", False, "pefim"],
+                          "icls": icls, "sr": sr, "sa": sa, "enc": enc, "binding": "post", "alg": "default", "nfmt": nfmt, "classref": CLASSREFS[0], "snooa": None,
+                          "lifetime": 15, "skew": 0, "authn_extra": None, "pefim": 1})
     for (sr, sa, enc) in combos:
         cases.append({"id": "deferred-r%d-a%d-e%d" % (sr, sa, enc), "sig": ["deferred", sr, sa, enc], "kind": "interleaved", "mode": "deferred",
                       "sr": sr, "sa": sa, "enc": enc, "users": 4})
@@ -251,6 +258,8 @@ def run_case(case, ctx):
     t_issue = clock.now()
     if case["snooa"]:
         kw["session_not_on_or_after"] = clock.iso(t_issue + case["snooa"])
+    if case.get("pefim"):
+        kw["pefim"] = True
     authn = {"class_ref": case["classref"], "authn_auth": "https://idp.example.org/authn"}
     # the optional pieces of authentication information an application may hand over as well
     extra = case.get("authn_extra")
@@ -274,8 +283,10 @@ def run_case(case, ctx):
         case["icls"], case["nfmt"], case["binding"], case["sr"], case["sa"], case["enc"], case["alg"], case.get("skew", 0))
     if case.get("authn_extra"):
         desc += " authn-info=%s" % case["authn_extra"]
+    if case.get("pefim"):
+        desc += " pefim (attributes in an encrypted advice assertion)"
     # structure of the plaintext message: exactly the asked attributes and values, nothing else
-    if not case["enc"]:
+    if not case["enc"] and not case.get("pefim"):
         root = ET.fromstring(xml.encode("utf-8"))
         asts = list(root.iter("{%s}AttributeStatement" % SAML))
         attrs = list(root.iter("{%s}Attribute" % SAML))
